@@ -2471,7 +2471,7 @@ package gocql
 
 //@ func (c *Conn) executeBatch
 //@   props C14 C03
-//@   count_calls prepareStatement exec evictPreparedID executeBatch marshalQueryValue
+//@   count_calls prepareStatement exec evictPreparedID executeBatch marshalQueryValue keyFor
 //@   requires batch != nil && ctx != nil && c.session != nil && c.session.stmtsLRU != nil && c.host != nil && plru_bound(c.session.stmtsLRU) && conn_ok(c)
 //@   requires forall(k, 0 <= k && k < len(batch.Entries), true)
 //@   stable_across Trace: c.calls
@@ -2481,7 +2481,9 @@ package gocql
 // C03: BATCH exists from v2 on (a v1 connection refuses instead of sending); the frame object carries the
 // batch's type, consistency levels, timestamp, payload and one query per entry
 //@   before[C03] exec: c.version != 1 && len(req.statements) == old(len(batch.Entries)) && req.typ == old(batch.Type) && req.consistency == old(batch.Cons) && req.serialConsistency == old(batch.serialCons) && req.defaultTimestamp == old(batch.defaultTimestamp) && req.defaultTimestampValue == old(batch.defaultTimestampValue) && req.customPayload == old(batch.CustomPayload)
-//@   before evictPreparedID: typeis(resp, *RequestErrUnprepared) && same(arg2, unbox(resp, *RequestErrUnprepared).StatementId)
+// the entry evicted is the one prepareStatement filed the statement under: (host id, connection keyspace, text)
+//@   before keyFor: same(arg1, c.host.hostId) && same(arg2, c.currentKeyspace) && same(arg3, stmt)
+//@   before evictPreparedID: typeis(resp, *RequestErrUnprepared) && same(arg2, unbox(resp, *RequestErrUnprepared).StatementId) && keyFor_calls >= 1 && same(arg1, keyFor_ret0)
 //@   before executeBatch: arg0 == c && arg2 == batch
 //@   ensures result != nil
 //@   ensures executeBatch_calls == 0 ==> exec_calls <= 1
